@@ -315,9 +315,19 @@ impl Model {
                 }
                 MustOk
             }
-            Op::Write { .. } => match self.st {
+            Op::Write { c, .. } => match self.st {
                 St::Idle | St::Closed => MustErr,
-                St::InFile | St::InExtra { .. } => MustOk,
+                St::InFile => {
+                    // more than 0xFFFFFFFF bytes in an entry not declared large must be refused
+                    let e = self.entries.last();
+                    let total = e.map(|e| e.len()).unwrap_or(0).saturating_add(c.len());
+                    if total > 0xFFFF_FFFF && !e.map(|e| e.large).unwrap_or(false) {
+                        MustErr
+                    } else {
+                        MustOk
+                    }
+                }
+                St::InExtra { .. } => MustOk,
                 St::AfterRaw => Either,
                 _ => Either,
             },
@@ -333,6 +343,13 @@ impl Model {
                 _ => MustErr,
             },
             Op::SetComment { .. } => MustOk,
+            Op::Many { .. } => {
+                if closed || !self.pending_ok() {
+                    MustErr
+                } else {
+                    MustOk
+                }
+            }
             Op::RawCopy { .. } => {
                 if closed || !self.pending_ok() {
                     MustErr
@@ -526,6 +543,25 @@ impl Model {
                     self.lenient = true;
                 }
             }
+            Op::Many { n, prefix } => {
+                if self.st != St::Unknown {
+                    self.commit_pending();
+                }
+                let made = if ok { *n as u64 } else { step.accepted };
+                let o = Opts::default();
+                for i in 0..made {
+                    let e = self.new_entry(format!("{prefix}{i}"), MKind::File, &o);
+                    self.entries.push(e);
+                }
+                if ok {
+                    if self.st != St::Unknown && made > 0 {
+                        self.st = St::InFile;
+                    }
+                } else if self.st != St::Closed {
+                    self.st = fail_to;
+                    self.lenient = true;
+                }
+            }
             Op::AddDir { name, o } => {
                 if ok {
                     if self.st != St::Unknown {
@@ -653,6 +689,11 @@ impl Model {
                 self.finish_ok = false;
                 self.lenient = false;
                 self.appended = true;
+                // entries of earlier lifetimes are re-emitted from the parsed directory: the extra-data
+                // placement oracle (C17) speaks of freshly written entries only
+                for e in self.entries.iter_mut() {
+                    e.has_extra = false;
+                }
                 if ok {
                     self.st = St::Idle;
                     self.complete = false;
